@@ -31,7 +31,7 @@ def one(sid):
         r = subprocess.run(['/verif/bin/abcheck', '-property', props, '-tier', tier, '-repo', repo, '-out', out], env=ENV, capture_output=True, text=True)
         hits = sorted({l.split()[1].split('=')[1] for l in r.stdout.splitlines() if l.startswith('VIOLATION')})
         detail = [l for l in r.stdout.splitlines() if l.startswith('violated') or l.startswith('UNDECIDED')]
-        if r.returncode == 2: detail.append('EXIT 2: ' + r.stdout[-300:] + r.stderr[-300:])
+        if r.returncode not in (0, 1): detail.append('EXIT %d: ' % r.returncode + r.stdout[-300:] + r.stderr[-300:]); hits = ['EXIT%d' % r.returncode] + hits
         return sid, hits, '\n'.join('      ' + x[:260] for x in detail[:6])
     finally:
         shutil.rmtree(tmp, ignore_errors=True)
